@@ -152,7 +152,7 @@ def gen_random(ctx, rng, count):
 
 def check(ctx: vlib.Ctx) -> int:
     rng = random.Random(ctx.seed)
-    ok = vlib.prove(ctx, ["Proofs/C10.vo", "Model/OverlapCases.vo"], gens=[])
+    ok = vlib.prove(ctx, ["Proofs/C10.vo", "Proofs/GridSym.vo", "Model/OverlapCases.vo"], gens=[])
     ctx.tie.append("hand-written model (Model/Overlap.v) + correspondence on Emulsion.remove_overlapping / get_pairwise_distances")
     specs = gen_exhaustive(ctx)
     nex = len(specs)
